@@ -106,19 +106,20 @@ theorem inv_leader_pc {s : DState} {i r : Nat} (hinv : DInv s) (hi : i < s.ncall
 
 /-- Passing a digest: the new witness is fine, the old ones stay fine although `tEnd` moves. -/
 theorem CInv.advance {s' : DState} {i : Nat} {c : DCaller} {k r t now : Nat} {rest : List Key}
-    (h : CInv s' i c) (htodo : c.todo = k :: rest) (hnow : c.tEnd ≤ now) (hnow' : now ≤ s'.now)
+    (hts : c.tStart ≤ s'.now) (hcov : c.wit.map (·.1) ++ c.todo = c.digests) (hwit : ∀ w ∈ c.wit, WitOk s' c w)
+    (htodo : c.todo = k :: rest) (hnow : c.tEnd ≤ now) (hnow' : now ≤ s'.now)
     (hr : r < s'.nregs) (hk : (s'.regs r).key = k) (ho : ∃ o, (s'.regs r).outcome = some o ∧ o.isOk = true)
     (h1 : c.tStart ≤ t) (h2 : t ≤ now) (h3 : (s'.regs r).tReg ≤ t)
     (h4 : ∀ td, (s'.regs r).tDereg = some td → t ≤ td) :
     CInv s' i (c.advance k r t now rest) := by
-  refine ⟨h.tStart, hnow', ?_, ?_, ?_⟩
-  · have := h.cover
+  refine ⟨hts, hnow', ?_, ?_, ?_⟩
+  · have := hcov
     rw [htodo] at this
     simp [DCaller.advance, ← this]
   · intro w hw
     simp only [DCaller.advance, List.mem_append, List.mem_singleton] at hw
     rcases hw with hw | hw
-    · obtain ⟨a1, a2, a3, a4, a5, a6, a7⟩ := h.wit w hw
+    · obtain ⟨a1, a2, a3, a4, a5, a6, a7⟩ := hwit w hw
       exact ⟨a1, a2, a3, a4, Nat.le_trans a5 hnow, a6, a7⟩
     · subst hw
       exact ⟨hr, hk, ho, h1, h2, h3, h4⟩
@@ -138,7 +139,7 @@ theorem inv_wake_ok {s : DState} {i r : Nat} {k : Key} {rest : List Key} {o : Ou
   obtain ⟨k', rest', b1, b2, b3, b4, b5, b6, b7⟩ := hp
   rw [htodo] at b1
   obtain ⟨rfl, rfl⟩ := List.cons.inj b1
-  exact h.advance htodo h0.tEnd (by simp) (by simpa using b2) (by simpa using b3)
+  exact CInv.advance h.tStart h.cover h.wit htodo h0.tEnd (by simp) (by simpa using b2) (by simpa using b3)
     ⟨o, by simpa using ho, hok⟩ b5 b6 (by simpa using b4) (by simpa using b7)
 
 theorem inv_call {s : DState} (hinv : DInv s) (ks : List Key) (cn : Bool) :
@@ -157,5 +158,185 @@ theorem inv_call {s : DState} (hinv : DInv s) (ks : List Key) (cn : Bool) :
   · simpa using hinv.infl
   · simpa using hinv.fin
   · intro r hr; have := hinv.treg r (by simpa using hr); simp; omega
+
+/-- The state after `enter` found no registration. -/
+def enterReg (s : DState) (i : Nat) (k : Key) : DState :=
+  (({ s with inFlight := fun k' => if k' = k then some s.nregs else s.inFlight k', nregs := s.nregs + 1 }).setReg
+    s.nregs { key := k, owner := i, tReg := s.now }).setCaller i { s.callers i with pc := .sink s.nregs }
+
+theorem inv_enter_reg {s : DState} {i : Nat} {k : Key} {rest : List Key} (hinv : DInv s) (hi : i < s.ncallers)
+    (htodo : (s.callers i).todo = k :: rest) (hfl : s.inFlight k = none) :
+    DInv (enterReg s i k) := by
+  have h0 := hinv.callers i hi
+  have hfr : Frame s (enterReg s i k) (i + 1) := by
+    unfold enterReg
+    refine ⟨by simp, by simp, ?_, ?_, ?_, ?_, ?_, ?_, ?_⟩
+    · intro r hr _; simp [Nat.ne_of_lt hr]
+    · intro r hr; simp [Nat.ne_of_lt hr]
+    · intro r hr; simp [Nat.ne_of_lt hr]
+    · intro r hr; simp [Nat.ne_of_lt hr]
+    · intro r hr o ho; simp [Nat.ne_of_lt hr, ho]
+    · intro r hr td htd; left; simpa [Nat.ne_of_lt hr] using htd
+    · intro k' r hk' _
+      have : k' ≠ k := by intro h; subst h; simp [hfl] at hk'
+      simp [this, hk']
+  have hfr' : Frame s (enterReg s i k) i :=
+    ⟨hfr.now_le, hfr.nregs_le, fun r hr _ => by simp [enterReg, Nat.ne_of_lt hr], hfr.key, hfr.owner, hfr.tReg,
+      hfr.outcome, hfr.tDereg, fun k' r hk' _ => by
+        have : k' ≠ k := by intro h; subst h; simp [hfl] at hk'
+        simp [enterReg, this, hk']⟩
+  have hfr0 := hfr
+  unfold enterReg at hfr ⊢
+  refine DInv.of_step i hinv hfr' ?_ ?_ ?_ ?_ ?_ ?_
+  · intro j hj; simp [hj]
+  · intro j hj _; simpa using hj
+  · have h := h0.frame hinv hfr (by omega)
+    simp only [setCaller_callers, if_true]
+    apply h.withPc
+    exact ⟨k, rest, htodo, by simp, by simp, by simp, by simpa using h0.tStart, by simp⟩
+  · intro k' r hk'
+    simp only [setCaller_inFlight, setReg_inFlight] at hk'
+    by_cases hkk : k' = k
+    · subst hkk; simp at hk'; subst hk'; simp
+    · simp [hkk] at hk'
+      obtain ⟨a1, a2, a3⟩ := hinv.infl k' r hk'
+      simp [Nat.ne_of_lt a1, a2, a3]; omega
+  · intro r hr
+    by_cases hrr : r = s.nregs
+    · subst hrr; simp
+    · have : r < s.nregs := by simp at hr; omega
+      simpa [hrr] using hinv.fin r this
+  · intro r hr
+    by_cases hrr : r = s.nregs
+    · subst hrr; simp
+    · have : r < s.nregs := by simp at hr; omega
+      have := hinv.treg r this
+      simp [hrr]; omega
+
+/-- The state after `dereg`. -/
+def deregState (s : DState) (i : Nat) (k : Key) (r : Nat) (o : Outcome) : DState :=
+  (({ s with inFlight := fun k' => if k' = k then none else s.inFlight k' }).setReg
+    r { s.regs r with tDereg := some s.now }).setCaller i { s.callers i with pc := .publish r o }
+
+theorem inv_dereg {s : DState} {i r : Nat} {k : Key} {rest : List Key} {o : Outcome} (hinv : DInv s)
+    (hi : i < s.ncallers) (hpc : (s.callers i).pc = .dereg r o) (htodo : (s.callers i).todo = k :: rest) :
+    DInv (deregState s i k r o) := by
+  have h0 := hinv.callers i hi
+  have hp := h0.pc
+  rw [hpc] at hp
+  obtain ⟨k', rest', b1, b2, b3, b4, b5, b6⟩ := hp
+  rw [htodo] at b1
+  obtain ⟨rfl, rfl⟩ := List.cons.inj b1
+  obtain ⟨c1, c2, c3⟩ := hinv.infl k r b2
+  have hfr : Frame s (deregState s i k r o) i := by
+    refine ⟨by simp [deregState], by simp [deregState], ?_, ?_, ?_, ?_, ?_, ?_, ?_⟩
+    · intro q hq hne
+      have : q ≠ r := by intro h; subst h; exact hne b3
+      simp [deregState, this]
+    · intro q hq; by_cases hqr : q = r <;> simp [deregState, hqr]
+    · intro q hq; by_cases hqr : q = r <;> simp [deregState, hqr]
+    · intro q hq; by_cases hqr : q = r <;> simp [deregState, hqr]
+    · intro q hq o' ho'; by_cases hqr : q = r
+      · subst hqr; simpa [deregState] using ho'
+      · simpa [deregState, hqr] using ho'
+    · intro q hq td htd; by_cases hqr : q = r
+      · subst hqr; right; simp [deregState] at htd; omega
+      · left; simpa [deregState, hqr] using htd
+    · intro k' q hk' hne
+      have : k' ≠ k := by
+        intro h; subst h; rw [b2] at hk'; cases hk'; exact hne b3
+      simp [deregState, this, hk']
+  refine DInv.of_step i hinv hfr ?_ ?_ ?_ ?_ ?_ ?_
+  · intro j hj; simp [deregState, hj]
+  · intro j hj _; simpa [deregState] using hj
+  · have hc : (deregState s i k r o).callers i = { s.callers i with pc := .publish r o } := by
+      simp [deregState]
+    rw [hc]
+    refine ⟨by have := h0.tStart; simp [deregState]; omega, by have := h0.tEnd; simp [deregState]; omega,
+      h0.cover, fun w hw => (h0.wit w hw).frame hfr h0.tEnd, ?_⟩
+    refine ⟨k, rest, htodo, by simpa [deregState] using c1, by simpa [deregState] using c2,
+      by simpa [deregState] using b3, by simpa [deregState] using b4, s.now, by simp [deregState],
+      by simpa [deregState] using b6, h0.tStart, by simp [deregState]⟩
+  · intro k' q hk'
+    by_cases hkk : k' = k
+    · subst hkk; simp [deregState] at hk'
+    · simp [deregState, hkk] at hk'
+      obtain ⟨a1, a2, a3⟩ := hinv.infl k' q hk'
+      have : q ≠ r := by intro h; subst h; exact hkk (a2.symm.trans c2)
+      simp [deregState, this, a1, a2, a3]
+  · intro q hq
+    by_cases hqr : q = r
+    · subst hqr; simp [deregState]
+    · simpa [deregState, hqr] using hinv.fin q (by simpa [deregState] using hq)
+  · intro q hq
+    have := hinv.treg q (by simpa [deregState] using hq)
+    by_cases hqr : q = r
+    · subst hqr; simp [deregState]; omega
+    · simp [deregState, hqr]; omega
+
+theorem Frame.publish {s : DState} {i r : Nat} (c' : DCaller) (o : Outcome) (hr : r < s.nregs)
+    (hown : (s.regs r).owner = i) (hnone : (s.regs r).outcome = none) :
+    Frame s ((s.setReg r { s.regs r with outcome := some o }).setCaller i c') i := by
+  refine ⟨by simp, by simp, ?_, ?_, ?_, ?_, ?_, ?_, ?_⟩
+  · intro q hq hne
+    have : q ≠ r := by intro h; subst h; exact hne hown
+    simp [this]
+  · intro q hq; by_cases hqr : q = r <;> simp [hqr]
+  · intro q hq; by_cases hqr : q = r <;> simp [hqr]
+  · intro q hq; by_cases hqr : q = r <;> simp [hqr]
+  · intro q hq o' ho'; by_cases hqr : q = r
+    · subst hqr; rw [hnone] at ho'; cases ho'
+    · simpa [hqr] using ho'
+  · intro q hq td htd; left; by_cases hqr : q = r
+    · subst hqr; simpa using htd
+    · simpa [hqr] using htd
+  · intro k' q hk' _; simpa using hk'
+
+theorem inv_publish {s : DState} {i r : Nat} {k : Key} {rest : List Key} {o : Outcome} (hinv : DInv s)
+    (hi : i < s.ncallers) (hpc : (s.callers i).pc = .publish r o) (htodo : (s.callers i).todo = k :: rest)
+    (c' : DCaller)
+    (hc' : c' = (s.callers i).advance k r ((s.regs r).tDereg.getD s.now) s.now rest ∧ o.isOk = true ∨
+           ∃ e, c' = { s.callers i with pc := .done (some e), tEnd := s.now }) :
+    DInv ((s.setReg r { s.regs r with outcome := some o }).setCaller i c') := by
+  have h0 := hinv.callers i hi
+  have hp := h0.pc
+  rw [hpc] at hp
+  obtain ⟨k', rest', b1, b2, b3, b4, b5, td, b6, b7, b8, b9⟩ := hp
+  rw [htodo] at b1
+  obtain ⟨rfl, rfl⟩ := List.cons.inj b1
+  have hfr := Frame.publish c' o b2 b4 b5
+  refine DInv.of_step i hinv hfr ?_ ?_ ?_ ?_ ?_ ?_
+  · intro j hj; simp [hj]
+  · intro j hj _; simpa using hj
+  · simp only [setCaller_callers, if_true]
+    have hts : ∀ c'' : DCaller,
+        (s.callers i).tStart ≤ ((s.setReg r { s.regs r with outcome := some o }).setCaller i c'').now := by
+      intro c''; have := h0.tStart; simp; omega
+    have hwit : ∀ c'' : DCaller, ∀ w ∈ (s.callers i).wit,
+        WitOk ((s.setReg r { s.regs r with outcome := some o }).setCaller i c'') (s.callers i) w :=
+      fun c'' w hw => (h0.wit w hw).frame (Frame.publish c'' o b2 b4 b5) h0.tEnd
+    have hget : (s.regs r).tDereg.getD s.now = td := by simp [b6]
+    rcases hc' with ⟨rfl, hok⟩ | ⟨e, rfl⟩
+    · rw [hget]
+      exact CInv.advance (hts _) h0.cover (hwit _) htodo h0.tEnd (by simp) (by simpa using b2) (by simpa using b3)
+        ⟨o, by simp, hok⟩ b8 b9 (by simpa using b7) (by intro td' h; simp [b6] at h; omega)
+    · refine ⟨hts _, by simp, h0.cover, ?_, trivial⟩
+      intro w hw
+      obtain ⟨a1, a2, a3, a4, a5, a6, a7⟩ := hwit _ w hw
+      exact ⟨a1, a2, a3, a4, by have := h0.tEnd; simp; omega, a6, a7⟩
+  · intro k' q hk'
+    obtain ⟨a1, a2, a3⟩ := hinv.infl k' q (by simpa using hk')
+    by_cases hqr : q = r
+    · subst hqr; simp [a1, a2, a3]
+    · simp [hqr, a1, a2, a3]
+  · intro q hq
+    by_cases hqr : q = r
+    · subst hqr; simp [b6]
+    · simpa [hqr] using hinv.fin q (by simpa using hq)
+  · intro q hq
+    have := hinv.treg q (by simpa using hq)
+    by_cases hqr : q = r
+    · subst hqr; simp; omega
+    · simp [hqr]; omega
 
 end BB.Caching
